@@ -217,7 +217,13 @@ func judge(c caseSpec) verdict {
 		if len(msg) > 300 {
 			msg = msg[:300]
 		}
-		v.diff = &difference{"emitted-text-does-not-parse", msg}
+		class := "emitted-text-does-not-parse"
+		if hasEmptyKindList(v.em.m.q) {
+			class = "empty-kind-list-emitted-as-invalid-cypher"
+		} else if hasIntegralFloatLiteral(v.em.m.q) && strings.Contains(msg, "invalid integer literal") {
+			class = "float-literal-emitted-as-integer" // same root cause: the float is printed without a decimal point, here too large for an integer
+		}
+		v.diff = &difference{class, msg}
 		return v
 	}
 	v.tq = tq
@@ -254,6 +260,54 @@ func main() {
 				}
 			}
 		}
+		// violation records of the workers: (class, size, case index); the witness reported per class is the smallest
+		// case (pure root causes before composite ones), re-judged here, so the verdict and its witness are the same in
+		// every run
+		type rec struct{ size, idx int }
+		best := map[string]rec{}
+		perClass := map[string]any{}
+		var violating int64
+		vfiles, _ := filepath.Glob(filepath.Join(hashDir, "*.viol"))
+		sort.Strings(vfiles)
+		for _, f := range vfiles {
+			bts, _ := os.ReadFile(f)
+			for _, line := range strings.Split(string(bts), "\n") {
+				var class string
+				var size, idx int
+				if n, _ := fmt.Sscanf(line, "%s %d %d", &class, &size, &idx); n != 3 {
+					continue
+				}
+				violating++
+				parts := strings.Split(class, "+")
+				for _, c := range parts {
+					sz := size
+					if len(parts) > 1 {
+						sz += 1000000 // a case with several root causes is a witness only if there is no pure one
+					}
+					cnt, _ := perClass[c].(int64)
+					perClass[c] = cnt + 1
+					if b, ok := best[c]; !ok || sz < b.size || (sz == b.size && idx < b.idx) {
+						best[c] = rec{sz, idx}
+					}
+				}
+			}
+		}
+		classes := make([]string, 0, len(best))
+		for c := range best {
+			classes = append(classes, c)
+		}
+		sort.Strings(classes)
+		for _, c := range classes {
+			cs := cases[best[c].idx]
+			v := judge(cs)
+			summary := "(not reproduced in the parent)"
+			if v.diff != nil {
+				summary = fmt.Sprintf("%s emits %q (parameters %s): %s", cs, v.em.text, valueRepr(v.em.params), v.diff.summary)
+			}
+			run.Report(core.Violation{Class: c, Summary: summary, Artefact: cs})
+		}
+		run.Set("violating_cases", violating)
+		run.Set("violating_cases_by_class", perClass)
 		os.RemoveAll(hashDir)
 		run.Set("distinct_nontrivial", int64(len(distinct)))
 		run.Set("cases", int64(len(cases)))
@@ -281,6 +335,15 @@ func main() {
 		core.Fatalf("c10: %v", err)
 	}
 	defer hashes.Close()
+	viol, err := os.Create(filepath.Join(hashDir, fmt.Sprintf("w%s.viol", strings.ReplaceAll(os.Getenv("VERIF_WORKER"), "/", "_"))))
+	if err != nil {
+		core.Fatalf("c10: %v", err)
+	}
+	defer viol.Close()
+	var dump *os.File
+	if d := os.Getenv("VERIF_C10_DUMP"); d != "" {
+		dump, _ = os.Create(filepath.Join(d, fmt.Sprintf("w%s.dump", strings.ReplaceAll(os.Getenv("VERIF_WORKER"), "/", "_"))))
+	}
 	var evals, refused, judged, unjudged, atoms, assignments int64
 	byPath := map[string]int64{}
 	capped := false
@@ -296,6 +359,9 @@ func main() {
 		v := judge(c)
 		if v.em.refused != "" {
 			refused++
+			if dump != nil {
+				fmt.Fprintf(dump, "REFUSED\t%s\t%s\n", v.em.refused, c)
+			}
 			continue
 		}
 		byPath[c.Path]++
@@ -310,7 +376,10 @@ func main() {
 			fmt.Fprintln(hashes, hex.EncodeToString(h[:8]))
 		}
 		if v.diff != nil {
-			run.Report(core.Violation{Class: v.diff.class, Summary: fmt.Sprintf("%s emits %q (parameters %s): %s", c, v.em.text, valueRepr(v.em.params), v.diff.summary), Artefact: c})
+			fmt.Fprintf(viol, "%s %d %d\n", v.diff.class, caseSize(c), i)
+			if dump != nil {
+				fmt.Fprintf(dump, "VIOLATION\t%s\t%s\t%s\n", v.diff.class, c, v.em.text)
+			}
 		}
 	}
 	if capped {
@@ -326,6 +395,72 @@ func main() {
 		run.Add("judged_path_"+p, byPath[p])
 	}
 	run.Finish()
+}
+
+func termSize(t *term) int {
+	if t == nil {
+		return 0
+	}
+	n := 1
+	for _, a := range t.Args {
+		n += termSize(a)
+	}
+	return n
+}
+
+func rawOps(t *term) int {
+	if t == nil {
+		return 0
+	}
+	n := 0
+	if strings.HasPrefix(t.Op, "c.") || (t.Op == "leaf" && strings.HasPrefix(t.Leaf, "cypher.")) {
+		n = 1
+	}
+	for _, a := range t.Args {
+		n += rawOps(a)
+	}
+	return n
+}
+
+// caseSize orders witnesses: fewer term nodes first, then fewer raw cypher-model constructors (a witness made of the
+// query package's own combinators is preferred), stable builder before v2 before texts, then shorter spelling.
+func caseSize(c caseSpec) int {
+	path := map[string]int{"neo4j": 0, "v2": 1, "format": 2, "rewrite": 3}[c.Path]
+	return termSize(c.Where)*100000 + rawOps(c.Where)*10000 + path*2000 + min(len(c.Tail)+len(c.Query), 1999)
+}
+
+func hasIntegralFloatLiteral(q *cypher.RegularQuery) bool {
+	found := false
+	if q == nil {
+		return false
+	}
+	_ = walk.CypherStructural(q, walk.NewSimpleVisitor[cypher.SyntaxNode](func(n cypher.SyntaxNode, _ walk.VisitorHandler) {
+		if l, ok := n.(*cypher.Literal); ok && l != nil {
+			if f, ok := l.Value.(float64); ok && f == float64(int64(f/1e6))*1e6 || ok && f == float64(int64(f)) {
+				found = true
+			}
+		}
+	}))
+	return found
+}
+
+// hasEmptyKindList: does the reference model contain a kind test / kind assignment over zero kinds?
+func hasEmptyKindList(q *cypher.RegularQuery) bool {
+	found := false
+	if q == nil {
+		return false
+	}
+	_ = walk.CypherStructural(q, walk.NewSimpleVisitor[cypher.SyntaxNode](func(n cypher.SyntaxNode, _ walk.VisitorHandler) {
+		switch t := n.(type) {
+		case *cypher.KindMatcher:
+			found = found || len(t.Kinds) == 0
+		case *cypher.SetItem:
+			if k, ok := t.Right.(graph.Kinds); ok && len(k) == 0 {
+				found = true
+			}
+		}
+	}))
+	return found
 }
 
 func nontrivial(text string) bool {
